@@ -255,6 +255,7 @@ var accNegatives = []struct{ Name, Text string }{
 	{"paths-interleaved-abab", "JSIGHT 0.3\nGET /cats\n  200 any\nGET /dogs\n  200 any\nPOST /cats\n  200 any\nPOST /dogs\n  200 any\nDELETE /cats\n  200 any\nURL /dogs\n  PUT\n    200 any\n"},
 	// quoted parameters with blanks: two different interactions whose "<protocol> <method> <path>" texts coincide
 	{"interaction-ids-coincide-through-blanks", "JSIGHT 0.3\nURL \"/x /a\"\n  Protocol json-rpc-2.0\n  Method foo\n    Params\n    {}\nURL /a\n  Protocol json-rpc-2.0\n  Method \"foo /x\"\n    Params\n    {}\n"},
+	{"paths-differ-in-an-invalid-byte-only", "JSIGHT 0.3\nGET /a\xff\n  200 any\nGET /a\xfe\n  200 any\n"},
 	{"same-tag-twice-in-tags", "JSIGHT 0.3\nTAG @t\nGET /a\n  Tags @t @t\n  200 any\n"},
 	{"same-tag-url-and-method", "JSIGHT 0.3\nTAG @t\nTAG @u\nURL /a\n  Tags @t\n  GET\n    Tags @u @t\n    200 any\n  POST\n    200 any\n"},
 	{"path-or-mismatch", "JSIGHT 0.3\nGET /a/{id}\n  Path\n  {\n    \"id\": \"x\" // {or: [{type: \"integer\"}, {type: \"boolean\"}]}\n  }\n  200 any\n"},
